@@ -180,3 +180,117 @@ Proof.
       * vm_compute. repeat split; congruence.
   - eexists; eexists. split; [vm_compute; reflexivity|]. split; vm_compute; reflexivity.
 Qed.
+
+(* ====================================================================================================
+   BYTE LEVEL (Store/RepairBytes.v recover_bytes: leveldb.Recover as one function on a storage image given as
+   bytes, composed from C13's table reader, C01's model table writer, C04's manifest record codec and open_rw;
+   tied to the real Recover by the KRecoverB correspondence cases on real file bytes).
+
+   Full statements aimed at (NOT all proved; what is missing is said at each item and in props/C19.json):
+     C19_recover_bytes_refines        recover_bytes = Store/Repair.v recover on the block maps blocks_of derives
+                                      (missing: the lift from one table's scan to the whole fold and through
+                                      commit / open_rw; the equation blocks_of = the blocks of table_wf)
+     C19_recover_keeps_readable       follows from the former + C19_recover_damaged + C01_read_path_refines
+     C19_recover_then_open_idempotent needs C04_open_rw_* applied to the image recover_bytes leaves (not done)
+   Proved below: the per-table core of the refinement, the rebuilt table, the bookkeeping of one file, the
+   sequence-number bound. *)
+From Coq Require Import List NArith ZArith Bool.
+Import ListNotations.
+From GL Require Import Base.Bytes Base.Cursor Codec.Block Codec.Table Codec.TableCheck Codec.TableProofs Lsm.ReadPath
+  Lsm.WritePath Lsm.WritePathTable Store.OpenPath Store.RepairBytes Store.RepairBytesProofs.
+
+(* The scan of recoverTable on bytes: let the file's reader have the index block of a well-formed table (so footer,
+   metaindex and index block are intact: exactly these must be readable) and let every data block either be fetched
+   as in that table or be refused as corrupted ([bad]; C13's read_block_detects: every block whose stored CRC
+   differs from the CRC of its bytes is refused).  Then the scan returns exactly the pairs of the blocks that are not
+   bad, in the original order — the [readable] list of Store/Repair.v for the block map the bytes denote.  The side
+   condition on the fuel is computable (more pairs than bytes needs a crafted index). *)
+Theorem C19_scan_skips_damaged_partial :
+  forall tp tcrc decompress fname ufc verify c rd0 blocks seps hs (bad : nat -> bool) data,
+  comparer_ok (ibc c) -> table_wf (ibc c) rd0 blocks seps hs ->
+  let rd := rt_reader tp tcrc decompress fname ufc verify c data in
+  tr_index rd = tr_index rd0 ->
+  (forall j, (j < length blocks)%nat ->
+     tr_fetch rd (nth j hs bh0) = if bad j then Corrupt else tr_fetch rd0 (nth j hs bh0)) ->
+  let kept := concat (map (fun j => if bad j then [] else nth j blocks []) (seq 0 (length blocks))) in
+  (length kept < scan_fuel data)%nat ->
+  scan tp tcrc decompress fname ufc verify c data = Some kept.
+Proof. exact scan_skips_damaged. Qed.
+Print Assumptions C19_scan_skips_damaged_partial.
+
+(* The inner recoverTable on bytes: verdict, counters, sequence number, record, and — when the table is rebuilt —
+   the model writer's output stored under the table's name with the temporary file gone. *)
+Theorem C19_recover_one_spec :
+  forall rp kp tp tcrc compress decompress fname ufc verify wo c strict st num all,
+  let data := match f_lookup (c_files (rb_c st)) (SW.FTable, num) with Some d => d | None => [] end in
+  scan tp tcrc decompress fname ufc verify c data = Some all ->
+  let g := good_of kp all in
+  let corrupted := (0 <? N.of_nat (length all) - N.of_nat (length g))%N || (0 <? cblocks_of tp tcrc decompress fname ufc verify c data)%N in
+  let one := recover_one_bytes rp kp tp tcrc compress decompress fname ufc verify wo c in
+  if (strict && corrupted) || match g with [] => true | _ => false end then
+    exists s, one strict st num = OOk (mkRB (rb_c st) (rb_rec st) (rb_maxseq st) (rb_temp st) (rb_stats st ++ [s])) /\
+              ts_verdict s = TDropped /\ ts_num s = num
+  else if corrupted then
+    match table_bytes c kp tp tcrc compress wo g with
+    | None => one strict st num = OErr OEFlush
+    | Some nd =>
+        exists st', one strict st num = OOk st' /\
+          f_lookup (c_files (rb_c st')) (SW.FTable, num) = Some nd /\
+          f_lookup (c_files (rb_c st')) (SW.FTemp, rb_temp st) = None /\
+          rb_temp st' = (rb_temp st + 1)%N /\
+          (tseq_of kp g <= rb_maxseq st')%N /\ (rb_maxseq st <= rb_maxseq st')%N /\
+          rb_rec st' = SR.add_table rp (rb_rec st)
+                         (SR.mkat 0%Z (Z.of_N num) (Z.of_N (lenN nd)) (key_first g) (key_last g)) /\
+          exists s, rb_stats st' = rb_stats st ++ [s] /\ ts_verdict s = TRebuilt /\ ts_good s = N.of_nat (length g)
+    end
+  else
+    exists st', one strict st num = OOk st' /\ c_files (rb_c st') = c_files (rb_c st) /\
+      (tseq_of kp g <= rb_maxseq st')%N /\ (rb_maxseq st <= rb_maxseq st')%N /\
+      rb_rec st' = SR.add_table rp (rb_rec st)
+                     (SR.mkat 0%Z (Z.of_N num) (Z.of_N (lenN data)) (key_first g) (key_last g)) /\
+      exists s, rb_stats st' = rb_stats st ++ [s] /\ ts_verdict s = TKept /\ ts_good s = N.of_nat (length g).
+Proof. intros. apply recover_one_spec. assumption. Qed.
+Print Assumptions C19_recover_one_spec.
+
+(* The sequence number recoverTable records for a table is at least that of every good key in it (and the running
+   maximum never decreases: C19_recover_one_spec).  PARTIAL with respect to the aimed-at C19_recover_seq_above_all:
+   the lift to db.seq of the state open_rw returns is not proved. *)
+Theorem C19_recover_seq_above_all_partial :
+  forall kp (l : list (bytes * bytes)) kv, In kv l -> (key_seq kp (fst kv) <= tseq_of kp l)%N.
+Proof. exact tseq_above_all. Qed.
+Print Assumptions C19_recover_seq_above_all_partial.
+
+(* A rebuilt table passes the byte-level format check of the read path (tfile_okb) with the recorded bounds and
+   decodes to exactly the good pairs in order (through C01_writer_output_ok). *)
+Theorem C19_rebuilt_table_ok :
+  forall c, comparer_ok c -> forall p, kparams_ok p -> forall tp, tparams_ok tp ->
+  forall crc, (forall b, (crc b < 2 ^ 32)%N) ->
+  forall compress decompress, (forall x, decompress (compress x) = Some x) -> (forall x, compress x <> []) ->
+  forall fname ufc verify o, (1 <= wo_ri o)%N -> forall num all nd,
+  let g := good_of p all in
+  Cursor.sorted (ibc c) g -> g <> [] -> Forall (fun kv => key_okb p (fst kv) = true) g ->
+  table_bytes c p tp crc compress o g = Some nd -> write_sizes_ok c p tp crc compress o g = true ->
+  (wo_filter o = None \/
+   filter_part c tp crc decompress fname ufc verify (mkTF num (key_first g) (key_last g) nd) = true) ->
+  tfile_okb c p tp crc decompress fname ufc verify (wo_ri o) (mkTF num (key_first g) (key_last g) nd) = true /\
+  tf_pairs c tp crc decompress fname ufc verify (wo_ri o) (mkTF num (key_first g) (key_last g) nd) = g.
+Proof. exact rebuilt_table_ok. Qed.
+Print Assumptions C19_rebuilt_table_ok.
+
+(* Non-vacuity, by computation on a table the model writer writes (three entries, CRC-32C, generated constants): the
+   scan returns the three pairs with largest sequence number 9; with one bit of the data block altered the block is
+   refused, the scan returns nothing and one corrupted block is counted (the table would be dropped). *)
+From GL Require Import Codec.TblCrc Gen.InstTbl.
+Definition c19_ex_wo : wopts := mkWO 64 2 false None (fun _ => 0%N) (fun _ => 0%N) (fun _ => 0%N) 0 false.
+Definition c19_ex_k (u s : N) : bytes := [u] ++ le64 (s * 256 + 1)%N.
+Definition c19_ex_kvs : list (bytes * bytes) :=
+  [(c19_ex_k 97 7, [1; 2; 3]%N); (c19_ex_k 98 9, [4%N]); (c19_ex_k 99 3, [])].
+Definition c19_ex_data : bytes :=
+  match table_bytes bytewise kp tblp tbl_crc (fun x => x) c19_ex_wo c19_ex_kvs with Some d => d | None => [] end.
+Definition c19_ex_bad : bytes := match c19_ex_data with a :: b :: r => a :: N.lxor b 1 :: r | l => l end.
+Example C19_nonvacuous_bytes :
+  scan tblp tbl_crc (fun _ => None) None (fun _ _ _ => true) true bytewise c19_ex_data = Some c19_ex_kvs /\
+  tseq_of kp c19_ex_kvs = 9%N /\
+  scan tblp tbl_crc (fun _ => None) None (fun _ _ _ => true) true bytewise c19_ex_bad = Some [] /\
+  cblocks_of tblp tbl_crc (fun _ => None) None (fun _ _ _ => true) true bytewise c19_ex_bad = 1%N.
+Proof. vm_compute. repeat split; reflexivity. Qed.
